@@ -353,7 +353,7 @@ IM_THEOREMS = ['IM.delivery_safe', 'IM.fifo_consumption', 'IM.happened_before', 
                'IM.fs_is_gen', 'IM.ffs_is_gen', 'IM.downsize_is_gen', 'IM.endPos_is_gen', 'IM.single_is_gen', 'IM.want_is_gen']
 PROPS['C02'] = {
     'modules': ['IpcModel.Props.C02'],
-    'theorems': ['C02.C02_whole', 'C02.C02_once_ordered', 'C02.C02_ok_in_order', 'C02.C02_hb', 'C02.C02_whole_with_attachments', 'C02.C02_shape_followups_blocking'] + IM_THEOREMS,
+    'theorems': ['C02.C02_whole', 'C02.C02_once_ordered', 'C02.C02_ok_in_order', 'C02.C02_hb', 'C02.C02_whole_with_attachments', 'C02.C02_shape_followups_blocking', 'C02.C02_signal_transparent', 'RecvSig.loop_retry'] + IM_THEOREMS,
     'scenarios': sched_scen(480, 12000),
     'search': search_sched,
     'rule': ('1..3 real sender threads x 1..2 messages each (sizes around the packet boundaries, 1..4 packets) and a real receiver thread, every sendmsg/send/'
@@ -398,8 +398,9 @@ def crash_scen(tier, seed):
 PROPS['C02']['scenarios'] = (lambda *fs: (lambda tier, seed: [x for f in fs for x in f(tier, seed)]))(sched_scen(480, 12000), timed_scen_late(['default'], 120, 3000), world_scen_late(['default'], 100, 2000),
                              lambda tier, seed: [{'args': ['set', '--seed', str(seed + 7), '--n', str(600 if tier == 'thorough' else 40), '--tier', tier]}],
                              lambda tier, seed: [{'args': ['eofrace', '--tier', tier]}],
+                             lambda tier, seed: [{'args': ['sigrecv', '--tier', tier]}],
                              lambda tier, seed: [{'args': ['stress', '--seed', str(seed + k), '--n', str(8000 if tier == 'thorough' else 600), '--tier', tier]} for k in range(2)])
-PROPS['C02']['rule'] += ('; plus timed scripts (every queued message must be returned, in order, by whichever of recv / try_recv / try_recv_timeout is issued, also after the last '
+PROPS['C02']['rule'] += ('; sigrecv: 2/3/5-fragment messages (thorough: up to 9) whose follow-up recv() calls are answered EINTR (single, double, every pattern in thorough) by the interposer, through recv / try_recv / a receiver set with a second busy member: every message once, whole, in order, no error; plus timed scripts (every queued message must be returned, in order, by whichever of recv / try_recv / try_recv_timeout is issued, also after the last '
                          'sender is gone), ungated stress rounds (1..6 sender threads on clones, mixed sizes, handles dropped at once; recv / spinning try_recv / try_recv_timeout / select; per-sender order, exactly-once, disconnection last), '
                          'eofrace (message then immediate drop vs a polling receiver), world programs compared with the specification, and receiver-set scripts (delivery through select: per-member order and exactly-once, incl. '
                          'many members ready at once and one batch of several MiB, then silence)')
@@ -433,6 +434,7 @@ PROPS['C06'] = {
     'scenarios': (lambda a: (lambda tier, seed: a(tier, seed) + [{'args': ['crash', '--shape', str(i), '--tier', tier, '--observer', 'select']}
                                                        for i in ((1, 2, 4, 5) if tier == 'thorough' else (1, 2))]
                                                       + [{'args': ['eofrace', '--tier', tier]}]
+                                                      + [{'args': ['sigrecv', '--tier', tier]}]
                                                       + [{'build': 'force-inprocess', 'args': ['set', '--seed', str(seed + 40), '--n', str(2000 if tier == 'thorough' else 150), '--tier', tier]}]))(set_scen(800, 12000)),
     'builds': ['default', 'force-inprocess'],
     'search': search_set,
